@@ -2921,6 +2921,8 @@ def convert_conv_groups(op: Operation, arch, nng):
             conv_group_op = Operation(op.type, f"{op.name}_cg{i}")
             conv_group_op.attrs = op.attrs.copy()
             conv_group_op.attrs["num_conv_groups"] = 1
+            # every group applies the fused activation of the original convolution
+            conv_group_op.activation = None if op.activation is None else op.activation.clone()
             # first input is the ifm
             conv_group_op.add_input_tensor(split_op_ofm_part)
             # second input is weights. the number of filters (i.e. the output channels) need to be split equally
